@@ -5,8 +5,10 @@
 //! (`--child ...` is the internal worker mode of the C07/C21 sweeps).
 
 mod alloc;
+mod c12;
 mod c20;
 mod c21;
+mod c22;
 mod child;
 mod corpus;
 mod grid;
@@ -20,8 +22,10 @@ fn main() {
     let args = engine::parse_args();
     engine::install_quiet_panic_hook();
     let code = match args.property.as_str() {
+        "C12" => c12::run(&args),
         "C20" => c20::run(&args),
         "C21" => c21::run(&args),
+        "C22" => c22::run(&args),
         other => engine::machinery_failure(&format!("serde_checks: unknown property {other}")),
     };
     std::process::exit(code);
